@@ -309,37 +309,72 @@ def v1split(proto: int, ai: int, pay: str, split: int) -> bool:
     return _valid_outcome(r, k, len(hdr), pay, peer, host)
 
 
-def v1fields(kind: int, x: str, y: str, split: int) -> bool:
+def _conc_digits(p):
+    """one path per digit value (binary search driven by the solver): a header with symbolic bytes in
+    the middle costs ~200 solver queries per path in CrossHair's str.split/find, a concrete one none"""
+    out = ""
+    for ch in p:
+        o = ord(ch)
+        lo, hi = 48, 57
+        while lo < hi:
+            mid = (lo + hi) // 2
+            if o <= mid:
+                hi = mid
+            else:
+                lo = mid + 1
+        out = out + chr(lo)
+    return out
+
+
+def v1ports(kind: int, x: str, split: int) -> bool:
     """
-    pre: 0 <= kind <= 2 and 1 <= len(x) <= 2 and len(y) == 2 and all(ord(c) < 256 for c in x + y)
-    pre: (kind == 2 and "\\r" not in x + y and "\\n" not in x + y) or (kind <= 1 and _port_ok(x) and _port_ok(y))
-    pre: 0 <= split <= 6
+    pre: 0 <= kind <= 3 and _port_ok(x)
+    pre: 0 <= split <= 3
     post: _
     """
-    kd = _menu(2, kind)
-    if kd == 0:
-        pre = "PROXY TCP4 1.2.3.4 5.6.7.8 "
-        hdr = pre + x + " " + y + "\r\n"
-        peer, host = ("4", "TCP", "1.2.3.4", _port_val(x)), ("4", "TCP", "5.6.7.8", _port_val(y))
-    elif kd == 1:
-        pre = "PROXY TCP6 ::1 2001:db8::2 "
-        hdr = pre + x + " " + y + "\r\n"
-        peer, host = ("6", "TCP", "::1", _port_val(x)), ("6", "TCP", "2001:db8::2", _port_val(y))
+    kd = _menu(3, kind)
+    x = _conc_digits(x)
+    if kd < 2:
+        pre, src, dst, kd6 = "PROXY TCP4 1.2.3.4 5.6.7.8 ", "1.2.3.4", "5.6.7.8", "4"
     else:
-        # "the receiver must ignore anything presented before the CRLF is found"
-        pre = "PROXY UNKNOWN "
-        hdr = pre + x + " " + y + "\r\n"
-        peer, host = REAL_PEER, REAL_HOST
+        pre, src, dst, kd6 = "PROXY TCP6 ::1 2001:db8::2 ", "::1", "2001:db8::2", "6"
+    if kd % 2 == 0:
+        sp, dp = x, "443"
+        inside = len(pre) + 1
+    else:
+        sp, dp = "10", x
+        inside = len(pre) + 3 + 1
+    hdr = pre + sp + " " + dp + "\r\n"
+    peer, host = (kd6, "TCP", src, int(sp)), (kd6, "TCP", dst, int(dp))
     pay = "XY"
     n = len(hdr)
-    # unsplit; shortest first delivery twisted buffers; inside the first symbolic field; between the
-    # fields; between CR and LF; header and payload separately; inside the payload
-    ks = [0, 8, len(pre) + 1, len(pre) + len(x) + 1, n - 1, n, n + 1]
-    k = ks[_menu(6, split)]
+    # unsplit; inside the symbolic port field; between CR and LF; header and payload separately
+    ks = [0, inside, n - 1, n]
+    k = ks[_menu(3, split)]
     r = Run(_pieces(hdr, pay, k))
     api.obs(r.log())
     cover()
     return _valid_outcome(r, k, n, pay, peer, host)
+
+
+def v1junk(x: str, y: str, split: int) -> bool:
+    """
+    pre: 1 <= len(x) <= 2 and len(y) == 2 and all(ord(c) < 256 for c in x + y)
+    pre: "\\r" not in x + y and "\\n" not in x + y
+    pre: 0 <= split <= 5
+    post: _
+    """
+    # "the receiver must ignore anything presented before the CRLF is found"
+    pre = "PROXY UNKNOWN "
+    hdr = pre + x + " " + y + "\r\n"
+    pay = "XY"
+    n = len(hdr)
+    ks = [0, 8, len(pre) + 1, n - 1, n, n + 1]
+    k = ks[_menu(5, split)]
+    r = Run(_pieces(hdr, pay, k))
+    api.obs(r.log())
+    cover()
+    return _valid_outcome(r, k, n, pay, REAL_PEER, REAL_HOST)
 
 
 def _is_ipv4(s):
@@ -740,8 +775,8 @@ HARNESSES = [
     H(v1split, shards=[("proto == 0",), ("proto == 1", "ai == 0"), ("proto == 1", "ai == 1"), ("proto == 1", "ai == 2"),
                        ("proto == 2",)],
       timeout={"quick": 100, "thorough": 900}),
-    H(v1fields, shards=[("kind == %d" % kd, "len(x) == %d" % n) for kd in range(3) for n in (1, 2)],
-      timeout={"quick": 100, "thorough": 900}),
+    H(v1ports, shards=[("kind == %d" % kd,) for kd in range(4)], timeout={"quick": 100, "thorough": 900}),
+    H(v1junk, shards=[("len(x) == 1",), ("len(x) == 2",)], timeout={"quick": 100, "thorough": 900}),
     H(v1bad, shards=_v1bad_shards, timeout={"quick": 100, "thorough": 900}),
     H(v1limit, timeout={"quick": 60, "thorough": 300}),
     H(v2inet, shards=[("cmd == 1", "fam == %d" % f) for f in range(4)] + [("cmd == 0",)],
@@ -756,8 +791,8 @@ HARNESSES = [
 VECTORS = {
     "v1split": [(0, 0, "hi", 0), (0, 1, "\r\n", 8), (0, 2, "hi", 33), (1, 0, "hi", 20), (1, 1, "ab", 3), (1, 2, "ab", 50),
                 (2, 0, "ab", 15), (2, 1, "ab", 9), (2, 2, "ab", 7), (0, 0, "hi", 35), (0, 0, "hi", 36)],
-    "v1fields": [(0, "8", "80", 0), (0, "99", "10", 2), (1, "8", "80", 3), (1, "65", "43", 4), (2, "zz", "\x00\xff", 5),
-                 (2, " ", "  ", 1), (0, "1", "10", 6)],
+    "v1ports": [(0, "8", 0), (0, "99", 1), (1, "80", 2), (2, "65", 3), (3, "0", 1), (1, "7", 0)],
+    "v1junk": [("zz", "\x00\xff", 5), (" ", "  ", 1), ("a", "bc", 2), ("TC", "P4", 0)],
     "v1bad": [(0, 0, "X", 0), (0, 1, "\x00", 0), (0, 3, "x", 0), (0, 8, "-", 0), (0, 11, "\n", 0), (1, 1, "g", 0),
               (1, 1, "%", 0), (2, 4, " ", 0), (3, 2, "\r", 0), (0, 3, "9", 0), (0, 7, "0", 0), (1, 10, "6", 0),
               (0, 9, " ", 0), (2, 1, "\t", 0), (0, 2, "6", 0), (1, 0, "4", 0), (0, 5, "6", 0), (0, 12, "\r", 0)],
